@@ -21,6 +21,39 @@ def ARENA_BASE : Nat := 65536
 def MAX_SIZE : Nat := 4194304
 def PAGE : Nat := 4096
 
+/-! Arena plumbing, fast versions for the driver (machine words instead of `Nat`s).  They compute what the model's
+`mkArena` / `hashArena` define; every line of every stream compares the result with the harness's own hash. -/
+
+/-- `hashArena`, with `x mod (2^55 - 55)` computed as `(x >>> 55) * 55 + (x &&& (2^55 - 1))` and one conditional
+subtraction (`2^55 ≡ 55`): for `h < P`, `x = h * 256 + b < 2^63`, the folded value is `< 2^55 + 14080 < 2 P` -/
+def fastHash (d : Array UInt8) : Nat :=
+  let p : UInt64 := 36028797018963913
+  (d.foldr (fun b (h : UInt64) =>
+    let x := h * 256 + b.toUInt64
+    let y := (x >>> 55) * 55 + (x &&& 36028797018963967)
+    if y ≥ p then y - p else y) 0).toNat
+
+/-- the content of `mkArena`: byte `i` is `pattern seed i` -/
+def fastData (size seed : Nat) : Array UInt8 := Id.run do
+  let mut a : Array UInt8 := Array.mkEmpty size
+  let s : UInt64 := (seed * 13 + 3).toUInt64 % 256
+  let mut j : UInt64 := 0
+  for _ in [0:size] do
+    a := a.push ((j * 7 + s) % 256).toUInt8
+    j := if j == 250 then 0 else j + 1
+  return a
+
+/-- pattern-filled arenas already built, by (size, seed): most cases of a stream share a handful -/
+abbrev Cache := List ((Nat × Nat) × Array UInt8)
+
+def arenaFor (c : Cache) (size seed : Nat) : Cache × Mem :=
+  match c.find? (fun e => e.1 == (size, seed)) with
+  | some e => (c, { base := 65536, data := e.2, oob := [], bad := 0, rlog := [], wlog := [] })
+  | none =>
+    let d := fastData size seed
+    let c' := if size ≤ 131072 then ((size, seed), d) :: c.take 15 else c
+    (c', { base := 65536, data := d, oob := [], bad := 0, rlog := [], wlog := [] })
+
 inductive Setup where
   | poke (o : Nat) (v : UInt8)
   | copy (to frm len : Nat)
@@ -100,44 +133,45 @@ def tail (holes : List Nat) (m : Mem) (rd wr : List (Nat × Nat)) : String :=
 
 def showW (holes : List Nat) (m : Mem) (ret : Option Nat) (rd wr : List (Nat × Nat)) : String :=
   let r := match ret with | some a => toString (a - m.base) | none => "-"
-  s!"h={hashArena m} ret={r}" ++ tail holes m rd wr
+  s!"h={fastHash m.data} ret={r}" ++ tail holes m rd wr
 
 def showC (holes : List Nat) (r : Mem × Option Int) (rd : List (Nat × Nat)) : String :=
   match r.2 with
-  | some v => s!"h={hashArena r.1} val={v}" ++ tail holes r.1 rd []
-  | none => s!"h={hashArena r.1} val=0 bad=2" ++ tail holes r.1 rd []
+  | some v => s!"h={fastHash r.1.data} val={v}" ++ tail holes r.1 rd []
+  | none => s!"h={fastHash r.1.data} val=0 bad=2" ++ tail holes r.1 rd []
 
-def step (_ : Unit) (line : String) : Unit × String :=
+def step (c : Cache) (line : String) : Cache × String :=
   match Drv.words line with
   | op :: size :: seed :: a :: b :: n :: setups =>
     match size.toNat?, seed.toNat?, a.toNat?, b.toInt?, n.toNat? with
     | some size, some seed, some a, some b, some n =>
-      if size > MAX_SIZE ∨ a + n > size then ((), "bad-op") else
+      if size > MAX_SIZE ∨ a + n > size then (c, "bad-op") else
       match parseSetups size setups with
-      | none => ((), "bad-op")
+      | none => (c, "bad-op")
       | some st =>
         let holes := holesOf st
-        if !clearOf holes a n then ((), "bad-op") else
-        let m := (applySetups (mkArena ARENA_BASE size seed) st).clearLogs
+        if !clearOf holes a n then (c, "bad-op") else
+        let (c, m0) := arenaFor c size seed
+        let m := (applySetups m0 st).clearLogs
         let base := ARENA_BASE
         if op == "set" then
-          if b < -2147483648 ∨ b > 2147483647 then ((), "bad-op") else
+          if b < -2147483648 ∨ b > 2147483647 then (c, "bad-op") else
           let (m', r) := memset m (base + a) b n
-          ((), showW holes m' (some r) [] [(base + a, n)])
-        else if b < 0 ∨ b.toNat + n > size then ((), "bad-op") else
+          (c, showW holes m' (some r) [] [(base + a, n)])
+        else if b < 0 ∨ b.toNat + n > size then (c, "bad-op") else
         let b := b.toNat
-        if !clearOf holes b n then ((), "bad-op") else
+        if !clearOf holes b n then (c, "bad-op") else
         let rd := [(base + b, n)]
         let wr := [(base + a, n)]
         match op with
-        | "cpy" => let (m', r) := memcpy m (base + a) (base + b) n; ((), showW holes m' (some r) rd wr)
-        | "mov" => let (m', r) := memmove m (base + a) (base + b) n; ((), showW holes m' (some r) rd wr)
-        | "fwd" => ((), showW holes (copyForward m (base + a) (base + b) n) none rd wr)
-        | "bwd" => ((), showW holes (copyBackward m (base + a) (base + b) n) none rd wr)
-        | "cmp" => ((), showC holes (memcmp m (base + a) (base + b) n) [(base + a, n), (base + b, n)])
-        | "bcm" => ((), showC holes (bcmp m (base + a) (base + b) n) [(base + a, n), (base + b, n)])
-        | _ => ((), "bad-op")
-    | _, _, _, _, _ => ((), "bad-op")
-  | _ => ((), "bad-op")
+        | "cpy" => let (m', r) := memcpy m (base + a) (base + b) n; (c, showW holes m' (some r) rd wr)
+        | "mov" => let (m', r) := memmove m (base + a) (base + b) n; (c, showW holes m' (some r) rd wr)
+        | "fwd" => (c, showW holes (copyForward m (base + a) (base + b) n) none rd wr)
+        | "bwd" => (c, showW holes (copyBackward m (base + a) (base + b) n) none rd wr)
+        | "cmp" => (c, showC holes (memcmp m (base + a) (base + b) n) [(base + a, n), (base + b, n)])
+        | "bcm" => (c, showC holes (bcmp m (base + a) (base + b) n) [(base + a, n), (base + b, n)])
+        | _ => (c, "bad-op")
+    | _, _, _, _, _ => (c, "bad-op")
+  | _ => (c, "bad-op")
 
-def main : IO Unit := Drv.run step ()
+def main : IO Unit := Drv.run step []
